@@ -320,7 +320,40 @@ def unit_misc(unit):
     return agg
 
 
+def unit_catalogue(unit):
+    """every result of the run-time derivation catalogue of mc/purity.py (every operator x every scalar / list / vector / table
+    second operand in both orders, every public method and property, indexing forms, joins, aggregate, window, sort, stacking)
+    on 13 operand kinds x 6 provenance forms (stand-alone, live column view, donor, nullable history, table, row): each vector
+    or table that comes back must report a truthful dtype - also after the operand has then been written in place"""
+    from mc import purity
+    _, kind, form, ykind = unit
+    agg = Agg()
+    for label, fn, live in purity.all_derivations(kind, form, ykind):
+        sc = purity.Scenario(kind, form, ykind)
+        agg.evals += 1; agg.transitions += 1; agg.states += 1
+        try:
+            r = fn(sc)
+        except Exception:
+            agg.skipped["operation-raises"] += 1
+            continue
+        case = {"operand": kind, "form": form, "second_operand": ykind, "derivation": label}
+        items = r if isinstance(r, (list, tuple)) else [r]
+        for it in items[:6]:
+            if purity.is_row(it):
+                try:
+                    it = it[0:len(it)]          # a row's slice is an ordinary vector carrying the row's dtype
+                except Exception:
+                    continue
+            if purity.is_vec(it):
+                if ykind is not None or kind in ("int?", "float?", "str?", "object") or form in ("rewritten", "row"):
+                    agg.nontrivial += 1
+                check_vec(agg, "catalogue." + form + "." + purity._site(label), it, case)
+    return agg
+
+
 def run_unit(unit):
+    if unit[0] == "cat":
+        return unit_catalogue(unit)
     if unit[0] == "bin":
         return unit_binary(unit)
     return unit_misc(unit)
@@ -329,6 +362,8 @@ def run_unit(unit):
 def check(ctx):
     LONG[0] = ctx.thorough
     units = [("bin", o) for o in BIN] + [("misc", w) for w in ("unary", "concat", "assign", "tableops", "methods")]
+    from mc import purity
+    units += [("cat", u[1], u[2], u[3]) for u in purity.plan(())]
     agg = core.merge_all(core.pmap(run_unit, units))
     agg.notes["bound"] = f"operand vectors of length 0..{3 if ctx.thorough else 2} over 10 kinds with None first/last/all; see RULE"
     agg.notes["exhaustive"] = True
